@@ -12,6 +12,9 @@ import (
 // Oracle: observation of the loaded merge output == dump of model.Merge.
 
 func c02Run(c *runner.Ctx) {
+	if c.Idx%4 == 1 { // hostile history: aborted and cancelled merges precede this merge
+		abortedMergeHistory(c)
+	}
 	m := genMergeCase(c.R, c.Idx, c.Tier, c.TmpDir)
 	defer m.Close()
 	c.Eval(1)
